@@ -1113,10 +1113,10 @@ def summarise(c):
 # case kinds
 
 
-def hist_case(ctx, g, rng, h):
-    """mixed history on one HDF5 file"""
+def hist_case(ctx, g, rng, h, long=False):
+    """mixed history on one HDF5 file (everything is a function of g alone, never of the tier)"""
     schema = gen_schema(rng)
-    n_ops = int(rng.integers(4, 13 if ctx.thorough else 11))
+    n_ops = int(rng.integers(8, 17)) if long else int(rng.integers(4, 11))
     for _ in range(n_ops):
         if h.dead:
             break
@@ -1168,7 +1168,7 @@ def hist_case(ctx, g, rng, h):
         h.verify()
 
 
-def batch_case(ctx, g, rng, h):
+def batch_case(ctx, g, rng, h, long=False):
     """one larger file (possibly built by appends), many batch reads"""
     schema = gen_schema(rng)
     big = rng.random() < 0.5
@@ -1177,7 +1177,7 @@ def batch_case(ctx, g, rng, h):
         if h.dead:
             return
         h.write(gen_table(rng, schema, gen_rows(rng)), False, True)
-    for _ in range(int(rng.integers(10, 25 if ctx.thorough else 19))):
+    for _ in range(int(rng.integers(18, 36)) if long else int(rng.integers(10, 19))):
         if h.dead:
             return
         h.batch(gen_batch(rng, spec_content(h.log)))
@@ -1205,15 +1205,26 @@ def fits_case(ctx, g, rng, h):
             h.verify()
 
 
-KINDS = {"hist": (hist_case, "hdf5"), "batch": (batch_case, "hdf5"), "fits": (fits_case, "fits")}
+def hist_long(ctx, g, rng, h):
+    hist_case(ctx, g, rng, h, long=True)
+
+
+def batch_long(ctx, g, rng, h):
+    batch_case(ctx, g, rng, h, long=True)
+
+
+KINDS = {"hist": (hist_case, "hdf5"), "histlong": (hist_long, "hdf5"), "batch": (batch_case, "hdf5"),
+         "batchlong": (batch_long, "hdf5"), "fits": (fits_case, "fits")}
 
 
 def plan(ctx):
+    """quick: ~45 s; thorough: ~14 min.  A case is a function of (kind, index, seed) only, so a replay does
+    not depend on the tier it was found in."""
     if ctx.thorough:
-        n = dict(hist=2600, batch=500, fits=400)
+        n = dict(hist=1500, histlong=700, batch=250, batchlong=150, fits=400)
     else:
-        n = dict(hist=170, batch=30, fits=30)
-    return [(k, i) for k in ("hist", "batch", "fits") for i in range(n[k])]
+        n = dict(hist=170, histlong=0, batch=30, batchlong=0, fits=30)
+    return [(k, i) for k in ("hist", "histlong", "batch", "batchlong", "fits") for i in range(n[k])]
 
 
 def run_case(ctx, g):
@@ -1227,6 +1238,7 @@ def run_case(ctx, g):
         fn(ctx, g, rng, h)
         h.finish()
         ctx.count(f"case:{kind}")
+        ctx.count(f"case-format:{fmt}")
         if h.dead:
             ctx.count("case:stopped-at-violation")
     finally:
@@ -1282,4 +1294,5 @@ def post(ctx):
     for e in ("key", "index", "value", "units"):
         ctx.require(f"refused batch reads ({e})", c[f"batch:error:{e}"], 2 * t)
     ctx.require("FITS histories", c["case:fits"], 20 * t)
+    ctx.require("HDF5 histories", c["case-format:hdf5"], 150 * t)
     ctx.require("FITS appends (not implemented)", c["refused:notimpl"], 3 * t)
